@@ -127,10 +127,18 @@ def is_explicit_merge_unwrap(real):
     return real.startswith("PANIC") and "Result::unwrap()" in real and "wac-graph/src/graph.rs" in real
 
 
+DEAD_ID_HISTORIES = []
+
+
 def correspondence(row):
     """list of human-readable disagreements between the model and the implementation for one composition"""
     out = []
     im, mo = row["impl"], row["model"]
+    if "harness: dead node id" in im.get("res", ""):
+        # the history names a node identifier that no longer exists: the harness cannot even build such a NodeId, so
+        # the call is never made. The property quantifies over live identifiers; the history is not compared (counted).
+        DEAD_ID_HISTORIES.append(row.get("case", ""))
+        return out
     ires = [re.sub(r"^PANIC\(.*", "PANIC", x) for x in im.get("res", "").split(";")]
     if ires != mo.get("res", "").split(";"):
         out.append("operation results differ")
@@ -205,38 +213,116 @@ def rename(pv, pi):
     return re.sub(r"\bn(\d+)\b", lambda m: "n%s" % pi.get(int(m.group(1)), "?" + m.group(1)), pv)
 
 
+ISO_BUDGET = 200000          # search steps per comparison; exhausting it is reported as "undecided", never as a failure
+ISO_STATS = dict(calls=0, undecided=0, max_steps=0)
+
+
+class IsoUndecided(Exception):
+    pass
+
+
+def _labels(items, n):
+    """per instance index: the export / name entries that mention it, with the instance itself written SELF and any
+    other instance written ?, as a sorted tuple (a permutation-invariant description used to prune the search)"""
+    lab = [[] for _ in range(n)]
+    for tag, ents in items:
+        for a, b, c in ents:
+            for k in {int(x) for x in re.findall(r"\bn(\d+)\b", c)}:
+                if k < n:
+                    pat = re.sub(r"\bn(\d+)\b", lambda m: "SELF" if int(m.group(1)) == k else "?", c)
+                    lab[k].append((tag, a, b, pat))
+    return [tuple(sorted(l)) for l in lab]
+
+
+_NREF = re.compile(r"\bn(\d+)\b")
+
+
+def _refine(D, Dl, S, Sl, n, rounds=4):
+    table = {}
+
+    def intern(x):
+        return table.setdefault(x, len(table))
+
+    def start(insts, lab):
+        return [intern((kind, _NREF.sub("?", comp), tuple(sorted((a, b, _NREF.sub("?", c)) for a, b, c in args)), lab[k]))
+                for k, (kind, comp, args) in enumerate(insts)]
+
+    def step(insts, col):
+        col_of = lambda m: "c%d" % col[int(m.group(1))] if int(m.group(1)) < len(col) else "c?"
+        out_desc = [(_NREF.sub(col_of, comp), tuple(sorted((a, b, _NREF.sub(col_of, c)) for a, b, c in args)))
+                    for (kind, comp, args) in insts]
+        used_by = [[] for _ in insts]
+        for j, (kind, comp, args) in enumerate(insts):
+            for a, b, c in list(args) + [("", "", comp)]:
+                for k in {int(x) for x in _NREF.findall(c)}:
+                    if k < len(insts):
+                        used_by[k].append((col[j], a, b, _NREF.sub(lambda m: "SELF" if int(m.group(1)) == k else "?", c)))
+        return [intern((col[k], out_desc[k], tuple(sorted(used_by[k])))) for k in range(len(insts))]
+    cd, cs = start(D, Dl), start(S, Sl)
+    for _ in range(rounds):
+        cd, cs = step(D, cd), step(S, cs)
+    return cd, cs
+
+
 def iso(dec, spec):
     """is there a bijection between the instance items of `dec` (real) and `spec` making them equal?
-    arguments are compared as name -> (sort, prov) maps, exports and names as sets."""
+    arguments are compared as name -> (sort, prov) maps, exports and names as sets.
+    Backtracking search, pruned by what exports / names say about each instance; bounded by ISO_BUDGET steps
+    (IsoUndecided is raised when the budget is exhausted: callers count the case as undecided)."""
     D, S = dec["insts"], spec["insts"]
     if len(D) != len(S) or sorted(dec["comps"]) != sorted(spec["comps"]) or len(set(dec["comps"])) != len(dec["comps"]):
         return False
     n = len(D)
+    ISO_STATS["calls"] += 1
 
     def norm(inst, pi):
         kind, comp, args = inst
         return (kind, rename(comp, pi) if pi is not None else comp,
                 frozenset((a, b, rename(c, pi) if pi is not None else c) for a, b, c in args), len(args))
     Sn = [norm(x, None) for x in S]
+    Dl = _labels([("e", dec["exports"]), ("n", dec["names"])], n)
+    Sl = _labels([("e", spec["exports"]), ("n", spec["names"])], n)
+    if sorted(Dl) != sorted(Sl):
+        return False
+    # colour refinement (an isomorphism invariant): an instance's colour is refined by the colours of the instances its
+    # component / arguments mention and of the instances that mention it; only equally coloured instances are matched
+    Dl, Sl = _refine(D, Dl, S, Sl, n)
+    if sorted(Dl) != sorted(Sl):
+        return False
+    # exports and names with every instance reference replaced by the instance's colour: a permutation-invariant
+    # description that must agree (catches differences that no bijection can repair before the search starts)
+    def coloured(side, col):
+        f = lambda m: "c%d" % col[int(m.group(1))] if int(m.group(1)) < n else "c?"
+        return (sorted((a, b, _NREF.sub(f, c)) for a, b, c in side["exports"]),
+                sorted((a, b, _NREF.sub(f, c)) for a, b, c in side["names"]))
+    if coloured(dec, Dl) != coloured(spec, Sl):
+        return False
 
     def rest_ok(pi):
         de = {(a, b, rename(c, pi)) for a, b, c in dec["exports"]}
         dn = {(a, b, rename(c, pi)) for a, b, c in dec["names"]}
         return (de == set(spec["exports"]) and len(dec["exports"]) == len(spec["exports"])
                 and dn == set(spec["names"]) and len(dec["names"]) == len(spec["names"]))
+    steps = [0]
 
     def go(k, pi, used):
+        steps[0] += 1
+        if steps[0] > ISO_BUDGET:
+            raise IsoUndecided()
         if k == n:
             return rest_ok(pi)
         want = norm(D[k], pi)
         for j in range(n):
-            if j not in used and Sn[j] == want:
+            if j not in used and Dl[k] == Sl[j] and Sn[j] == want:
                 pi[k] = j; used.add(j)
                 if go(k + 1, pi, used):
                     return True
                 del pi[k]; used.discard(j)
         return False
-    return go(0, {}, set())
+    try:
+        return go(0, {}, set())
+    finally:
+        ISO_STATS["max_steps"] = max(ISO_STATS["max_steps"], steps[0])
 
 
 # ------------------------------------------------------------------ known-finding signatures
